@@ -202,7 +202,7 @@ func genOptionValues(t *rapid.T, spec *execution.OptionSpec, allowVar bool) map[
 			case cls == "empty":
 				vals[o.Name] = ""
 			case cls == "custom" || o.Select == nil || len(o.Select.Values) == 0:
-				vals[o.Name] = "custom-" + genWord(t, "cv", allowVar)
+				vals[o.Name] = genCustom(t, selValues(o), allowVar)
 			default:
 				vals[o.Name] = rapid.SampledFrom(o.Select.Values).Draw(t, "selv")
 			}
@@ -216,7 +216,10 @@ func genOptionValues(t *rapid.T, spec *execution.OptionSpec, allowVar bool) map[
 					l = []interface{}{}
 				}
 			case cls == "custom" || o.Multi == nil || len(o.Multi.Values) == 0:
-				l = []interface{}{"custom-" + genWord(t, "cv", allowVar)}
+				l = []interface{}{genCustom(t, mulValues(o), allowVar)}
+				if o.Multi != nil && len(o.Multi.Values) > 0 && rapid.Bool().Draw(t, "mixcustom") {
+					l = append(l, rapid.SampledFrom(o.Multi.Values).Draw(t, "mulv"))
+				}
 			default:
 				n := rapid.IntRange(1, 3).Draw(t, "nmv")
 				for i := 0; i < n; i++ {
@@ -239,6 +242,46 @@ func genOptionValues(t *rapid.T, spec *execution.OptionSpec, allowVar bool) map[
 		vals["no-such-option"] = "x"
 	}
 	return vals
+}
+
+func selValues(o execution.Option) []string {
+	if o.Select == nil {
+		return nil
+	}
+	return o.Select.Values
+}
+
+func mulValues(o execution.Option) []string {
+	if o.Multi == nil {
+		return nil
+	}
+	return o.Multi.Values
+}
+
+// genCustom draws a value meant to lie outside the allowed list (the reference
+// evaluator decides membership, so nothing depends on that): a marked word, a
+// bare short word, or a near miss of an allowed value (suffix, prefix, case).
+func genCustom(t *rapid.T, allowed []string, allowVar bool) string {
+	w := genWord(t, "cv", allowVar)
+	kinds := []string{"marked", "bare"}
+	if len(allowed) > 0 {
+		kinds = append(kinds, "suffix", "prefix", "case")
+	}
+	switch rapid.SampledFrom(kinds).Draw(t, "customKind") {
+	case "bare":
+		return w
+	case "suffix":
+		return rapid.SampledFrom(allowed).Draw(t, "near") + "x"
+	case "prefix":
+		a := rapid.SampledFrom(allowed).Draw(t, "near")
+		if len(a) > 1 {
+			return a[:len(a)-1]
+		}
+		return a + a
+	case "case":
+		return strings.ToUpper(rapid.SampledFrom(allowed).Draw(t, "near"))
+	}
+	return "custom-" + w
 }
 
 // decodeLikeAdmission round-trips through JSON so that the dynamic types are
